@@ -5,11 +5,11 @@ package checkpoint
 // against the root and, restored into an empty node database, reproduce exactly
 // the checkpointed nodes and contents; the same inputs give the same chunks.
 //
-// Under the engine the chunk file framing (snappy + CBOR stream, chunk digest)
-// is replaced: writeChunk and restoreChunk are redirected to vWriteChunk /
-// vRestoreChunk below, which hand the proof object over directly and run the
-// same verification and import steps (VerifyProof, doRestoreChunk, batch commit).
-// Natively the real writeChunk / restoreChunk run on byte buffers.
+// The real writeChunk / restoreChunk run on byte buffers in both modes; under the
+// engine the third-party stream codecs they use are modelled (snappy = identity,
+// streaming CBOR of byte strings = injective length-prefixed records, see
+// engine/stream.go), everything else (digest builder, order of the digest /
+// decode / proof checks, import) is the real code.
 
 import (
 	"bytes"
@@ -22,7 +22,6 @@ import (
 	"github.com/oasisprotocol/oasis-core/go/storage/mkvs"
 	db "github.com/oasisprotocol/oasis-core/go/storage/mkvs/db/api"
 	"github.com/oasisprotocol/oasis-core/go/storage/mkvs/node"
-	"github.com/oasisprotocol/oasis-core/go/storage/mkvs/syncer"
 )
 
 var c12Ctx = context.Background()
@@ -31,7 +30,6 @@ var c12Ns common.Namespace
 // vSink is the writer handed to the chunkers.
 type vSink struct {
 	buf    bytes.Buffer
-	proof  *syncer.Proof // engine mode: the proof handed over by vWriteChunk
 	closed bool
 }
 
@@ -46,49 +44,8 @@ func (f *vSinkFactory) next() (int, io.WriteCloser, error) {
 	return len(f.sinks) - 1, s, nil
 }
 
-// vWriteChunk replaces writeChunk under the engine.
-func vWriteChunk(proof *syncer.Proof, w io.Writer) (hash.Hash, error) {
-	if s, ok := w.(*vSink); ok {
-		s.proof = proof
-	}
-	// digest model: hash over the length-prefixed entries
-	var all []byte
-	for _, e := range proof.Entries {
-		all = append(all, byte(len(e)), byte(len(e)>>8))
-		if e == nil {
-			all = append(all, 0xff)
-		}
-		all = append(all, e...)
-	}
-	return hash.NewFromBytes(all), nil
-}
-
-// vRestoreChunk replaces restoreChunk under the engine (same steps after decoding).
-func vRestoreChunk(ctx context.Context, ndb db.NodeDB, chunk *ChunkMetadata, proof *syncer.Proof) error {
-	p := syncer.Proof{V: v1ProofsVersion, UntrustedRoot: chunk.Root.Hash, Entries: proof.Entries}
-	var pv syncer.ProofVerifier
-	ptr, err := pv.VerifyProof(ctx, chunk.Root.Hash, &p)
-	if err != nil {
-		return ErrChunkProofVerificationFailed
-	}
-	emptyRoot := node.Root{Namespace: chunk.Root.Namespace, Version: chunk.Root.Version, Type: chunk.Root.Type}
-	emptyRoot.Hash.Empty()
-	batch, err := ndb.NewBatch(emptyRoot, chunk.Root.Version, true)
-	if err != nil {
-		return err
-	}
-	defer batch.Reset()
-	if err = doRestoreChunk(ctx, batch, ptr, nil); err != nil {
-		return err
-	}
-	return batch.Commit(chunk.Root)
-}
-
 func c12Restore(ndb db.NodeDB, root node.Root, idx int, digest hash.Hash, s *vSink) error {
 	meta := &ChunkMetadata{Version: 1, Root: root, Index: uint64(idx), Digest: digest}
-	if symx.Symbolic() {
-		return vRestoreChunk(c12Ctx, ndb, meta, s.proof)
-	}
 	return restoreChunk(c12Ctx, ndb, meta, bytes.NewReader(s.buf.Bytes()))
 }
 
